@@ -535,10 +535,10 @@ Proof.
   destruct (load_detection o ic (YMap dkv)) as [dt|k|s] eqn:Hld; cbn [bind] in Hload;
     try discriminate.
   destruct (match option_map untag (ylookup key_tp kv) with
-            | Some (YSeq l) => Ok l | _ => Err ERule end) as [tp|k|s];
+            | Some (YSeq l) => Ok l | Some YNull => Ok [] | _ => Err ERule end) as [tp|k|s];
     cbn [bind] in Hload; try discriminate.
   destruct (match option_map untag (ylookup key_tn kv) with
-            | Some (YSeq l) => Ok l | _ => Err ERule end) as [tn|k|s];
+            | Some (YSeq l) => Ok l | Some YNull => Ok [] | _ => Err ERule end) as [tn|k|s];
     cbn [bind] in Hload; try discriminate.
   inversion Hload; subst r. cbn [r_tp r_tn].
   destruct (detection_roundtrip o ic dkv cond raw raw' dt Hraw Hnames Hperm Hld)
